@@ -740,6 +740,12 @@ impl Impl {
                 let i: usize = t.parse().ok()?;
                 match self.k.tokens.get_mut(i) { Some(slot @ Some(_)) => { *slot = None; format!("ok{}", self.k.suffix()) } _ => "no-token".into() }
             }
+            // the same drop, but performed while the thread is unwinding from a panic (the token is a local of a frame that panics — what
+            // happens to a connection's token when its handler panics through `Token::run`)
+            ["k.drop_token_u", t] => {
+                let i: usize = t.parse().ok()?;
+                match self.k.tokens.get_mut(i) { Some(slot @ Some(_)) => { let tok = slot.take(); let _ = catch(move || -> () { let _held = tok; panic!("unwinding drop") }); format!("ok{}", self.k.suffix()) } _ => "no-token".into() }
+            }
             ["g.new", n] | ["g.new", n, _] => {
                 let n: usize = n.parse().ok()?;
                 let c: usize = a.get(2).and_then(|x| x.parse().ok()).unwrap_or(0);
@@ -786,9 +792,9 @@ impl Impl {
                 let (_, cw) = self.k.shutdown.as_ref().unwrap();
                 format!("{} wakes={} wb={wb} hook={}", if r.is_ready() { "ready" } else { "pending" }, cw.0.load(std::sync::atomic::Ordering::SeqCst) + wb, if fired.load(std::sync::atomic::Ordering::SeqCst) { "fired" } else { "not-reached" })
             }
-            ["g.drop", t] => {
+            ["g.drop", t] | ["g.dropu", t] => {
                 let i: usize = t.parse().ok()?;
-                match self.k.tokens.get_mut(i) { Some(slot @ Some(_)) => { *slot = None; } _ => return Some("no-token".into()) }
+                match self.k.tokens.get_mut(i) { Some(slot @ Some(_)) => { if a[0] == "g.dropu" { let tok = slot.take(); let _ = catch(move || -> () { let _held = tok; panic!("unwinding drop") }); } else { *slot = None; } } _ => return Some("no-token".into()) }
                 let wb = self.k.cw2.as_ref().map_or(0, |c| c.0.load(std::sync::atomic::Ordering::SeqCst));
                 let w = self.k.shutdown.as_ref().map_or(0, |(_, cw)| cw.0.load(std::sync::atomic::Ordering::SeqCst)) + wb;
                 format!("ok wakes={w} wb={wb}")
